@@ -71,6 +71,7 @@ def lerax_to_gym_space(space: AbstractSpace) -> gym.Space:
         return gym.spaces.Box(
             low=np.asarray(space.low),
             high=np.asarray(space.high),
+            dtype=np.asarray(space.low).dtype,
         )
     elif isinstance(space, Dict):
         return gym.spaces.Dict(
